@@ -144,6 +144,65 @@ def ltf_step(W, cfg, bound=None, use_lpsd=False, prior=False):
     return I, env, env1, post, args
 
 
+# ---------------------------------------------------------------------------- the last iterations of the main loop, path by path
+def ob_ltf_tail(W, sched):
+    """one execution of the loop body from an arbitrary state within three minimal resolutions (3*fs/N) of the end of the band, in fork
+    mode (every `if` and every integer the code needs is decided per path): however many bins that execution emits -- one, or the whole
+    remaining tail in one go followed by `break` -- each of them satisfies the per-bin grid clauses, in particular f < fs/2"""
+    cfg = config(W)
+    if not W.sym:
+        return concrete_goals(W, sched, cfg, _GOALS["tail"])
+    Sm = S()
+    fd = astx.get_function_ast(Sm.ltf_plan)
+    pre, wh, post = split_body(fd)
+    I = astx.Interp(glob_for(Sm), loop_bound=4)
+    args = dict(cfg)
+    if sched == "lpsd":
+        rec = {}
+        from symx.shim import clone
+        clone(Sm.lpsd_plan, ltf_plan=lambda **kw: rec.update(kw) or {"rec": True})(**args)
+        args = rec
+    env = I.block(pre, {"args": args})
+    rhu_summary(I, env, W)
+    add_pow_facts(W, cfg)
+    lv = [n.id for n in ast.walk(wh.test) if isinstance(n, ast.Name) and n.id in env and isinstance(env[n.id], SR)]
+    if not lv:
+        raise Unsupported("cannot identify the loop variable of the scheduler's main loop")
+    loopvar = lv[0]
+    N, fs = cfg["N"], cfg["fs"]
+    fi = W.real("fi")
+    W.assume(fi >= env[loopvar])
+    env[loopvar] = fi
+    W.assume(I.ev(wh.test, env))
+    W.assume((fs / 2 - fi) * N <= fs * 3)
+    I.fork_ifs = True
+    W.run.concretize_ints = True
+    try:
+        env1 = I.block(wh.body, env)
+        broke = False
+    except astx._Break as b:
+        env1, broke = b.env, True
+    add_pow_facts(W, cfg)
+    I.fork_ifs = False
+    out = run_post(W, I, dict(env1), post, 3)
+    f, r, b, L = out["f"], out["r"], out["b"], out["L"]
+    n = len(f)
+    W.goal("C03/tail:emits-at-least-one-bin", n >= 1)
+    if n:
+        W.goal("C03/tail:first emitted frequency is the state", W.eq(f[0], fi))
+    for j in range(n):
+        Lj = SR(tz(L[j]))
+        W.goal("C03/tail:f<nyquist", f[j] * 2 < fs, bin=j, emitted=n)
+        W.goal("C03/tail:r*L=fs", W.eq(r[j] * Lj, fs), bin=j)
+        W.goal("C03/tail:b=f*L/fs", W.eq(b[j], f[j] * Lj / fs), bin=j)
+        W.goal("C02/tail:L-range", W.And(Lj >= 1, Lj <= N), bin=j)
+        if j + 1 < n:
+            W.goal("C03/tail:next=f+r", W.eq(f[j + 1], f[j] + r[j]), bin=j)
+    if broke and n:
+        # leaving the loop early is only right when the grid is complete: the successor of the last emitted bin is beyond the band
+        W.goal("C03/tail:early exit only at the end of the band", (f[n - 1] + r[n - 1]) * 2 >= fs)
+
+
 # ---------------------------------------------------------------------------- whole plans at a small concrete record length
 def ob_whole_plan(W, sched, N, Jdes, Lmin, fs_value=None):
     """the WHOLE scheduler function executed path by path (fork mode: every branch and loop test decided per path) for a small concrete
@@ -862,6 +921,75 @@ def vec_step(W, cfg, fork_ifs=False, prior=False):
     return I, env, env1, post, rho, st
 
 
+def ob_vec_tail(W):
+    """vectorized_ltf_plan: phase 1 on a generic adjacent grid pair with every mask decided element by element (fork mode), then ONE
+    execution of the walker's loop body from an arbitrary state within three minimal resolutions of the end of the band, every `if` and
+    every integer decided per path: however many bins it emits (one, or a whole tail followed by `break`), each satisfies the per-bin
+    clauses of C02/C03 that do not depend on the starts"""
+    cfg = config(W)
+    if not W.sym:
+        return concrete_goals(W, "vec", cfg, _GOALS["vec-tail"])
+    Sm = S()
+    fd = astx.get_function_ast(Sm.vectorized_ltf_plan)
+    pre, wh, post = split_body(fd)
+    g0 = W.real("g0"); rho = W.real("rho")
+    W.assume(g0 > 0); W.assume(rho > 1)
+    grid = oarr([g0, g0 * rho])
+
+    def logspace(a, b, n, **k):
+        if not (is_sym_(a) or is_sym_(b)):
+            return rnp.logspace(a, b, n, **k)
+        return grid.copy().view(SymNd)
+
+    def searchsorted(arr, v, side="left"):
+        if not (is_sym_(v) or (isinstance(arr, rnp.ndarray) and arr.dtype == object)):
+            return rnp.searchsorted(arr, v, side=side)
+        W.assume(arr[0] < v); W.assume(v <= arr[1])
+        return 1
+    I = astx.Interp(glob_for(Sm, {"np_over": dict(logspace=logspace, searchsorted=searchsorted)}))
+    W.run.fork_masks = True          # a[mask] with a symbolic mask: its elements are decided (phase 1 has two grid points)
+    W.run.concretize_ints = True
+    env = I.block(pre, {"args": dict(cfg)})
+    I.fork_ifs = True
+    add_pow_facts(W, cfg)
+    N, fs, Lmin = cfg["N"], cfg["fs"], cfg["Lmin"]
+    W.assume(grid[1] >= env["fmin"]); W.assume(grid[1] <= env["fmax"])
+    lv = [n.id for n in ast.walk(wh.test) if isinstance(n, ast.Name) and n.id in env and isinstance(env[n.id], SR)]
+    if not lv:
+        raise Unsupported("cannot identify the loop variable of the walker")
+    loopvar = lv[0]
+    cf = W.real("fi")
+    W.assume(cf >= env[loopvar])
+    env[loopvar] = cf
+    W.assume(I.ev(wh.test, env))
+    W.assume((fs / 2 - cf) * N <= fs * 3)
+    try:
+        env1 = I.block(wh.body, env)
+        broke = False
+    except astx._Break as b:
+        env1, broke = b.env, True
+    add_pow_facts(W, cfg)
+    I.fork_ifs = False
+    W.run.fork_masks = False
+    out = run_post(W, I, dict(env1), post, 4)
+    f, r, b, L, K = out["f"], out["r"], out["b"], out["L"], out["K"]
+    n = len(f)
+    if n == 0:
+        W.goal("C02/tail:an iteration that emits nothing ends the loop", broke)
+        return
+    W.goal("C03/tail:first emitted frequency is the state", W.eq(f[0], cf))
+    for j in range(n):
+        Lj, Kj = SR(tz(L[j])), SR(tz(K[j]))
+        W.goal("C03/tail:f<nyquist", f[j] * 2 < fs, bin=j, emitted=n)
+        W.goal("C03/tail:r*L=fs", W.eq(r[j] * Lj, fs), bin=j)
+        W.goal("C03/tail:b=f*L/fs", W.eq(b[j], f[j] * Lj / fs), bin=j)
+        W.goal("C02/tail:L-range", W.And(Lj >= 1, Lj >= Lmin, Lj <= N), bin=j)
+        W.goal("C02/tail:K>=1", Kj >= 1, bin=j)
+        W.goal("C02/tail:K=1=>L=N", W.Implies(W.eq(Kj, 1), W.eq(Lj, N)), bin=j)
+        if j + 1 < n:
+            W.goal("C03/tail:next=f+r", W.eq(f[j + 1], f[j] + r[j]), bin=j)
+
+
 def ob_mono_chain_vec(W, seg):
     """vectorized_ltf_plan: the lookup maps are monotone along the grid (L non-increasing, K non-decreasing on a generic adjacent pair
     g0 < g1 of the grid; the walker reads the maps at non-decreasing indices), proved as a chain cut at the two np.round statements of
@@ -1054,6 +1182,13 @@ def ob_new(W, part):
     raise ValueError(part)
 
 
+_GOALS["tail"] = ["C03/tail:emits-at-least-one-bin", "C03/tail:first emitted frequency is the state", "C03/tail:f<nyquist", "C03/tail:r*L=fs", "C03/tail:b=f*L/fs", "C02/tail:L-range",
+                  "C03/tail:next=f+r", "C03/tail:early exit only at the end of the band"]
+for _n, _a in (("C03/tail:emits-at-least-one-bin", "C02/K>=1"), ("C03/tail:first emitted frequency is the state", "C03/next=f+r"), ("C03/tail:f<nyquist", "C03/f<nyquist"), ("C03/tail:r*L=fs", "C03/r*L=fs"),
+               ("C03/tail:b=f*L/fs", "C03/b=f*L/fs"), ("C02/tail:L-range", "C02/L-range"), ("C03/tail:next=f+r", "C03/next=f+r"), ("C03/tail:early exit only at the end of the band", "C03/f<nyquist")):
+    ALIAS[_n] = _a
+_GOALS["vec-tail"] = _GOALS["tail"] + ["C02/tail:K>=1", "C02/tail:K=1=>L=N", "C02/tail:an iteration that emits nothing ends the loop"]
+ALIAS["C02/tail:K>=1"] = "C02/K>=1"; ALIAS["C02/tail:K=1=>L=N"] = "C02/K=1=>L=N"; ALIAS["C02/tail:an iteration that emits nothing ends the loop"] = "C02/K>=1"
 for _n in ("C04/chain-A:resolution>0", "C04/chain-A:resolution nondecreasing in f", "C04/chain-A1:resolution>0", "C04/chain-A1:resolution nondecreasing in f",
            "C04/chain-A2:resolution>0", "C04/chain-A2:resolution nondecreasing in f", "C04/chain-B:1<=length<=N", "C04/chain-B:length nonincreasing in resolution", "C04/chain-B:length integral"):
     ALIAS[_n] = "C04/L-nonincreasing"      # a counterexample to a link is a finding only if a real plan of that configuration is non-monotone
